@@ -146,7 +146,7 @@ fn sequential_sweep(v: &Verdicts, rng: &mut Rng, thorough: bool) -> (u64, BTreeS
             let (_, cur) = get_safe(&mut s, &dbs, &k);
             let line = match rng.below(8) {
                 0..=2 => format!("set {} {}", k, 100 + i),
-                3..=4 => format!("increment {} {}", k, rng.range(1, 3)),
+                3..=4 => format!("increment {} {}", k, *rng.pick(&[1i32, 2, 3, 0, -1])),
                 5 => format!("set-safe {} {} {}", k, (cur + rng.below(3) as i32 - 1).max(0), 200 + i),
                 6 => format!("set-safe {} {} {}", k, rng.below(4), 300 + i),
                 _ => format!("remove {}", k),
@@ -228,7 +228,7 @@ fn gen_mix(r: &mut Rng) -> (Vec<Vec<COp>>, Vec<(String, Option<i32>)>) {
                 0..=1 => COp::Set(k),
                 2..=3 => COp::SetSafeAbs(k, r.below(5) as i32),
                 4..=5 => COp::Cas(k),
-                6..=8 => COp::Inc(k, r.range(1, 3) as i32),
+                6..=8 => COp::Inc(k, *r.pick(&[1i32, 2, 3, 1, 2, 0])),
                 9..=10 => COp::GetSafe(k),
                 _ => COp::Remove(k),
             };
